@@ -46,60 +46,100 @@ def run(ctx):
 def r1_preprocessing(ctx):
     rep = ctx.rep
     c01.r5_tab_expansion(ctx, rule='C13.R1')
-    f = ctx.func(PARSE)
+    fp = ctx.func(PARSE)
+    MI = 'xdoctest.parser._min_indentation'
+    # host of the common de-indent: parse itself, or a helper parse hands the text to (inlining bound 1)
+    hosts = []
+    cands = [fp]
+    for c in walk_scope(fp.node):
+        if isinstance(c, ast.Call):
+            r = ctx.res.resolve_call(fp, c)
+            if r[0] == 'repo' and len(r[1]) == 1 and r[1][0].module is fp.module and r[1][0] not in cands and r[1][0].qualname not in (MI, LABEL):
+                cands.append(r[1][0])
+    for h in cands:
+        rdh = ctx.rd(h)
+        mi_defs = [d for d in rdh.defs if isinstance(d.value, ast.Call) and ctx.res.resolve_call(h, d.value)[0] == 'repo' and ctx.res.resolve_call(h, d.value)[1][0].qualname == MI]
+        if mi_defs:
+            hosts.append((h, mi_defs))
+    need(len(hosts) == 1 and len(hosts[0][1]) == 1, 'C13.R1: _min_indentation(string) not bound to one local in parse (or in one helper it calls)')
+    f, (mi,) = hosts[0]
     g = ctx.cfg(f)
     rd = ctx.rd(f)
     dom = ctx.dom(g, g.entry)
-    src = f.node.args.args[1].arg
-    mi_defs = [d for d in rd.defs if isinstance(d.value, ast.Call) and ctx.res.resolve_call(f, d.value)[0] == 'repo' and
-               ctx.res.resolve_call(f, d.value)[1][0].qualname == 'xdoctest.parser._min_indentation']
-    need(len(mi_defs) == 1, 'C13.R1: _min_indentation(string) not bound to one local in parse')
-    mi = mi_defs[0]
-    ok_arg = mi.value.args and is_name(mi.value.args[0], src)
-    # the de-indent: string = '\n'.join([ln[mi:] for ln in string.splitlines()]) under mi > 0
+    src = mi.value.args[0].id if mi.value.args and isinstance(mi.value.args[0], ast.Name) else None
+    ok_arg = src is not None
+    # the de-indent: '\n'.join([ln[mi:] for ln in <src>.splitlines()]) where the common indentation is non-zero
     ded = None
-    for d in rd.defs:
-        if d.name == src and isinstance(d.value, ast.Call) and isinstance(d.value.func, ast.Attribute) and d.value.func.attr == 'join' and d.value.args:
-            comp = d.value.args[0]
+    for n in g.nodes:
+        if n.kind != 'stmt' or n.dup or not isinstance(n.ast, (ast.Assign, ast.Return)):
+            continue
+        v = n.ast.value
+        if isinstance(v, ast.Call) and isinstance(v.func, ast.Attribute) and v.func.attr == 'join' and v.args:
+            comp = v.args[0]
             if isinstance(comp, (ast.ListComp, ast.GeneratorExp)) and isinstance(comp.elt, ast.Subscript) and isinstance(comp.elt.slice, ast.Slice):
-                ded = d
+                ded = n
     if ded is None:
-        rep.ob('C13.R1', ctx.loc(f, f.node), 'common de-indent', False, 'the common indentation is no longer removed from every line before labelling', anchor=PARSE)
+        rep.ob('C13.R1', ctx.loc(f, f.node), 'common de-indent', False, 'the common indentation is no longer removed from every line before labelling', anchor=f.qualname)
         return
-    comp = ded.value.args[0]
+    dv = ded.ast.value
+    comp = dv.args[0]
     sl = comp.elt.slice
     lower_ok = is_name(sl.lower, mi.name) and sl.upper is None
     it = comp.generators[0].iter
     same_string = isinstance(it, ast.Call) and isinstance(it.func, ast.Attribute) and it.func.attr == 'splitlines' and is_name(it.func.value, src) and \
-        is_name(comp.elt.value, comp.generators[0].target.id if isinstance(comp.generators[0].target, ast.Name) else '')
-    sep_ok = isinstance(ded.value.func.value, ast.Constant) and ded.value.func.value.value == '\n'
-    facts = graph.guard_facts(dom, ded.node)
-    pos = any(isinstance(fa.expr, ast.Compare) and is_name(fa.expr.left, mi.name) and isinstance(fa.expr.ops[0], (ast.Gt, ast.GtE, ast.NotEq)) and fa.polarity is True for fa in facts) or \
-        any(is_name(fa.expr, mi.name) and fa.polarity is True for fa in facts)
+        is_name(comp.elt.value, comp.generators[0].target.id if isinstance(comp.generators[0].target, ast.Name) else '') and \
+        set(id(d) for d in rd.at(ded, src)) == set(id(d) for d in rd.at(mi.node, src))
+    sep_ok = isinstance(dv.func.value, ast.Constant) and dv.func.value.value == '\n'
+    facts = graph.guard_facts(dom, ded)
+
+    def nonzero(fa):
+        e = fa.expr
+        if is_name(e, mi.name):
+            return fa.polarity is True
+        if isinstance(e, ast.Compare) and len(e.ops) == 1 and is_name(e.left, mi.name) and isinstance(e.comparators[0], ast.Constant) and e.comparators[0].value == 0:
+            if isinstance(e.ops[0], (ast.Gt, ast.NotEq)):
+                return fa.polarity is True
+            if isinstance(e.ops[0], (ast.Eq, ast.LtE)):
+                return fa.polarity is False
+        if isinstance(e, ast.Compare) and len(e.ops) == 1 and is_name(e.left, mi.name) and isinstance(e.comparators[0], ast.Constant) and e.comparators[0].value == 1 and isinstance(e.ops[0], ast.GtE):
+            return fa.polarity is True
+        return False
+    pos = any(nonzero(fa) for fa in facts)
     ok = ok_arg and lower_ok and same_string and sep_ok and pos
-    rep.ob('C13.R1', ctx.loc(f, ded.node.ast), ctx.src(ded.node.ast), ok,
+    rep.ob('C13.R1', ctx.loc(f, ded.ast), ctx.src(ded.ast), ok,
            'every line of the same string is sliced from the common indentation and re-joined with newlines' if ok else
-           'the common de-indent is not `join(line[min_indent:] for line in string.splitlines())` on the positive branch (arg ok %s, bound ok %s, same string %s, separator %s, guard %s)' % (ok_arg, lower_ok, same_string, sep_ok, pos),
-           anchor=PARSE)
+           'the common de-indent is not `join(line[min_indent:] for line in string.splitlines())` on the branch where it is non-zero (arg ok %s, bound ok %s, same string %s, separator %s, guard %s)' % (ok_arg, lower_ok, same_string, sep_ok, pos),
+           anchor=f.qualname)
     # the labeller receives that string
-    lab = [(n, c) for n in g.nodes for c in node_calls(n) if ctx.res.resolve_call(f, c)[0] == 'repo' and ctx.res.resolve_call(f, c)[1][0].qualname == LABEL]
+    gp = ctx.cfg(fp)
+    rdp = ctx.rd(fp)
+    psrc = fp.node.args.args[1].arg
+    lab = [(n, c) for n in gp.nodes for c in node_calls(n) if ctx.res.resolve_call(fp, c)[0] == 'repo' and ctx.res.resolve_call(fp, c)[1][0].qualname == LABEL]
     need(lab, 'C13.R1: call of the labeller not found')
     for (n, c) in lab:
         a0 = c.args[0] if c.args else None
-        defs = rd.at(n, a0.id) if isinstance(a0, ast.Name) else []
-        ok = is_name(a0, src) and any(d is ded for d in defs) and all(d.kind != 'param' for d in defs)
-        rep.ob('C13.R1', ctx.loc(f, c), ctx.src(c), ok,
-               'the labeller receives the tab-expanded, de-indented text' if ok else 'the labeller can receive the raw docstring', anchor=PARSE)
-    # min on a non-empty list only
-    fm = ctx.func('xdoctest.parser._min_indentation')
+        defs = rdp.at(n, a0.id) if isinstance(a0, ast.Name) else []
+        if f is fp:
+            okl = is_name(a0, psrc) and any(d.node is ded for d in defs) and all(d.kind != 'param' for d in defs)
+        else:
+            # every definition reaching the labeller is the result of the de-indent helper applied to (a value derived from) the text
+            okl = bool(defs) and all(isinstance(d.value, ast.Call) and ctx.res.resolve_call(fp, d.value)[0] == 'repo' and ctx.res.resolve_call(fp, d.value)[1][0] is f for d in defs)
+            # and the helper returns either its argument unchanged (nothing to strip) or the de-indented text
+            rets = [x for x in g.nodes if x.kind == 'stmt' and isinstance(x.ast, ast.Return) and not x.dup]
+            okl = okl and all(x is ded or is_name(x.ast.value, src) for x in rets)
+        rep.ob('C13.R1', ctx.loc(fp, c), ctx.src(c), okl,
+               'the labeller receives the tab-expanded, de-indented text' if okl else 'the labeller can receive the raw docstring', anchor=PARSE)
+    # min on a non-empty sequence only (or with a default)
+    fm = ctx.func(MI)
     gm = ctx.cfg(fm)
     domm = ctx.dom(gm, gm.entry)
     for n in gm.nodes:
         for c in node_calls(n):
             if is_name(c.func, 'min'):
                 facts = graph.guard_facts(domm, n)
-                ok = any(isinstance(fa.expr, ast.Compare) and 'len(' in fa.text and fa.polarity is True for fa in facts) or any(isinstance(fa.expr, ast.Name) and fa.polarity is True for fa in facts)
-                rep.ob('C13.R1', ctx.loc(fm, c), ctx.src(c), ok, 'min() only on a non-empty list' if ok else 'min() of a possibly empty list (a docstring without non-blank lines raises ValueError)', anchor=fm.qualname)
+                ok = any(isinstance(fa.expr, ast.Compare) and 'len(' in fa.text and fa.polarity is True for fa in facts) or any(isinstance(fa.expr, ast.Name) and fa.polarity is True for fa in facts) or \
+                    any(k.arg == 'default' for k in c.keywords)
+                rep.ob('C13.R1', ctx.loc(fm, c), ctx.src(c), ok, 'min() only on a non-empty sequence (or with a default)' if ok else 'min() of a possibly empty list (a docstring without non-blank lines raises ValueError)', anchor=fm.qualname)
 
 
 def _state_constants(rd):
@@ -132,7 +172,7 @@ def _state_truth(e, var, val, states):
 
 
 def _yield_nodes(g):
-    return [n for n in g.nodes if n.kind == 'stmt' and not n.dup and any(isinstance(x, ast.Yield) for x in ast.walk(n.ast))]
+    return [n for n in g.nodes if n.kind == 'stmt' and not n.dup and any(isinstance(x, (ast.Yield, ast.YieldFrom)) for x in ast.walk(n.ast))]
 
 
 def r2_consume_emit(ctx):
@@ -480,8 +520,9 @@ def r4_grouping(ctx):
         (_, lo, hi, _, _) = next(iter(res.values())) if res else (None, 0, 0, None, None)
         rep.ob('C13.R4', ctx.loc(f, ih.ast), 'every example of a chunk is passed on', (lo, hi) == (1, 1),
                'one yield per packaged example' if (lo, hi) == (1, 1) else '%d..%d yields per packaged example' % (lo, hi), anchor=PKG)
-    conts = [n for n in g.nodes if n.kind == 'stmt' and isinstance(n.ast, (ast.Continue, ast.Break)) and not n.dup]
-    rep.ob('C13.R4', ctx.loc(f, conts[0].ast if conts else f.node), 'no continue / break in the grouping loop', not conts, '%d jump statement(s)' % len(conts), nontrivial=False, anchor=PKG)
+    # a `continue` after the group was emitted is harmless (the count above covers it); a `break` drops the remaining groups
+    brks = [n for n in g.nodes if n.kind == 'stmt' and isinstance(n.ast, ast.Break) and not n.dup and graph.in_loop_body(n, head.ast) and not any(graph.in_loop_body(n, ih.ast) for ih in inner)]
+    rep.ob('C13.R4', ctx.loc(f, brks[0].ast if brks else f.node), 'no break in the grouping loop', not brks, '%d break statement(s)' % len(brks), nontrivial=False, anchor=PKG)
     # the chunk packager always yields its final example
     fc = ctx.func(CHUNK)
     gc = ctx.cfg(fc)
@@ -519,6 +560,10 @@ def r5_group_buffers(ctx):
         mid = item[1] if len(item) == 3 else item[0]
         grows = [n for n in g.nodes if not n.dup and graph.in_loop_body(n, head.ast) and
                  any(isinstance(c.func, ast.Attribute) and c.func.attr in ('append', 'extend') and is_name(c.func.value, 'current') and c.args and _mentions(c.args[0], mid) for c in node_calls(n))]
+        # `current = list(<item>)` / `current = [<item>]` opens a new buffer that already holds the item: reset and grow in one step
+        fresh_with_item = [d.node for d in rd.defs_of('current') if graph.in_loop_body(d.node, head.ast) and isinstance(d.value, ast.AST) and d.kind == 'assign' and
+                           _mentions(d.value, mid) and not _mentions(d.value, 'current')]
+        grows = grows + [n for n in fresh_with_item if n not in grows]
         res = graph.count_events(entry, lambda x: any(x is y for y in grows), lambda x: x is head, efilter=graph.normal_only)
         need(res, 'C13.R5: loop %d has no back edge' % (li + 1))
         (_, lo, hi, wlo, whi) = next(iter(res.values()))
@@ -526,7 +571,7 @@ def r5_group_buffers(ctx):
                'every %s is added to the open group exactly once' % ('labelled line' if li == 0 else 'group') if (lo, hi) == (1, 1) else
                'an item is added %d..%d times: lines are %s' % (lo, hi, 'lost' if lo == 0 else 'duplicated'),
                witness=None if (lo, hi) == (1, 1) else graph.fmt_path(wlo if lo != 1 else whi, f.module.relpath), anchor=GROUP)
-        resets = [d.node for d in rd.defs_of('current') if graph.in_loop_body(d.node, head.ast) and isinstance(d.value, ast.List) and not d.value.elts]
+        resets = [d.node for d in rd.defs_of('current') if graph.in_loop_body(d.node, head.ast) and isinstance(d.value, ast.List) and not d.value.elts] + fresh_with_item
         flushes = [n for n in g.nodes if not n.dup and any(isinstance(c.func, ast.Attribute) and c.func.attr == 'append' and c.args and _mentions(c.args[0], 'current') and not is_name(c.func.value, 'current') for c in node_calls(n))]
         empty_guard = [n for n in g.nodes if n.kind == 'branch' and n.attrs['test'].kind == 'test' and graph.in_loop_body(n, head.ast) and
                        any(isinstance(fa.expr, ast.Compare) and is_name(fa.expr.left, 'state') and isinstance(fa.expr.ops[0], ast.Is) and fa.polarity is True for fa in graph.facts_of(n.attrs['test'].ast, n.attrs['polarity']))]
@@ -537,7 +582,7 @@ def r5_group_buffers(ctx):
                    witness=None if wit is None else graph.fmt_path(wit, f.module.relpath), anchor=GROUP)
         # the reset comes before this iteration's append (the item opens the new group)
         for r in resets:
-            late = graph.path([y for gr in grows for y in gr.nsucc()], lambda x, r=r: x is r, efilter=graph.normal_only, stop=[head])
+            late = graph.path([y for gr in grows if gr is not r for y in gr.nsucc()], lambda x, r=r: x is r, efilter=graph.normal_only, stop=[head])
             rep.ob('C13.R5', ctx.loc(f, r.ast), 'pass %d: reset precedes the append of the item' % (li + 1), late is None,
                    'order kept' if late is None else 'the item is appended and then discarded by the reset', nontrivial=False, anchor=GROUP)
         # final flush after the loop
@@ -624,6 +669,9 @@ def r6_line_counter(ctx):
     dom = ctx.dom(g, entry, cut)
     # the counter: local passed to _package_chunk and initialised to 0
     pc = [(n, c) for n in g.nodes if n.kind == 'for_init' and isinstance(n.ast, ast.Call) for c in [n.ast] if ctx.res.resolve_call(f, c)[0] == 'repo' and ctx.res.resolve_call(f, c)[1][0].qualname == CHUNK]
+    # ... or delegated to with `yield from`
+    pc += [(n, c) for n in g.nodes if n.kind == 'stmt' and not n.dup for y in ast.walk(n.ast) if isinstance(y, ast.YieldFrom) and isinstance(y.value, ast.Call)
+           for c in [y.value] if ctx.res.resolve_call(f, c)[0] == 'repo' and ctx.res.resolve_call(f, c)[1][0].qualname == CHUNK]
     need(pc, 'C13.R6: call of the chunk packager not found')
     cn, cc = pc[0]
     cnt = cc.args[2] if len(cc.args) > 2 else None
